@@ -15,6 +15,11 @@ BUILT = {
             "(diagnostic code, lexeme classes around it).",
             "The grammar is the trusted definition of conformance (narrowest reading of the Norm); constructs that are open findings are excluded by construction, counted, and re-observed on fixed probes.",
             "§4.1"),
+    "C02": ("mutation of generated conforming programs by a catalogue of 86 violation operators at generated sites; expected-diagnostic oracle",
+            "For every generated conforming program each applicable edit operator (one Norm violation, tied to one diagnostic code) is applied at sites enumerated from the program's site map; "
+            "the expected code must be reported on the expected line, the file must be Error and the CLI must exit non-zero. Misses are bucketed by (operator, site class).",
+            "Site predicates are trusted to describe where each enforced rule applies; rules the tool does not police are not in the catalogue; lenient classes found are open findings keyed (operator, site class).",
+            "§4.2"),
     "C09": ("exhaustive small-alphabet enumeration + Hypothesis lexeme soups against an independent alignment scanner",
             "Every token position is compared with the position recomputed from the raw text by a scanner that shares no code with the lexer; "
             "all strings up to a length bound over two reduced lexical alphabets are enumerated completely and longer lexeme soups are sampled. "
